@@ -1,5 +1,5 @@
 """registry — which rules decide which property (and with what configuration)."""
-from rules import codec, writer, iterator, writer_abs
+from rules import codec, writer, iterator, writer_abs, sizes
 
 RULES = {
     "R-PANIC-VINT": codec.r_panic_vint,
@@ -19,6 +19,10 @@ RULES = {
     "R-DEPRECATED-EQ": writer_abs.r_deprecated_eq,
     "R-FULL-EQ": writer_abs.r_full_eq,
     "R-ATOMIC": writer_abs.r_atomic,
+    "R-SIZE-TABLE": sizes.r_size_table,
+    "R-UNKNOWN-MARKER": sizes.r_unknown_marker,
+    "R-CODEC-PAIR": sizes.r_codec_pair,
+    "R-PAYLOAD-WIDTH": sizes.r_payload_width,
     "R-SPEC-CONSIST": iterator.r_spec_consist,
     "R-PANIC-ITER": iterator.r_iter_panic,
     "R-STALE": iterator.r_stale,
@@ -32,6 +36,20 @@ RULES = {
 }
 
 PROPERTIES = {
+    "C01": {
+        "rules": ["R-SIZE-TABLE", "R-UNKNOWN-MARKER", "R-CODEC-PAIR", "R-PAYLOAD-WIDTH"],
+        "level": "other",
+        "explanation": "Abstract interpretation per value class: the reader's reserved-size table vs the writer's size encoders (a known size is never "
+                       "emitted as the reserved pattern of its width), the unknown-size marker constant decoded by the checker and classified by the "
+                       "reader's own function, exhaustive and correctly paired per-type codecs on both sides, and declared payload width = bytes appended "
+                       "= minimal width.  Equality of the tag sequence after a round trip is not decided.",
+    },
+    "C07": {
+        "rules": ["R-UNKNOWN-MARKER"],
+        "level": "other",
+        "explanation": "Only the marker clause: what start_unknown_size_tag emits is in the reader's reserved table for that width, and the master is "
+                       "recorded as Unknown.  Which element closes which unknown-size master is the semantics of the closing rule and is not decided.",
+    },
     "C13": {
         "rules": ["R-TOL", "R-TOL-DEFAULT"],
         "level": "other",
@@ -115,7 +133,7 @@ PROPERTIES = {
                        "decode(encode(v)) returns v itself (value-level bijection).",
     },
     "C16": {
-        "rules": ["R-PANIC-PAYLOAD", "R-DEC-CLASS", "R-DEC-RANGE"],
+        "rules": ["R-PANIC-PAYLOAD", "R-DEC-CLASS", "R-DEC-RANGE", "R-PAYLOAD-WIDTH"],
         "level": "proof",
         "explanation": "Abstract interpretation of the three payload decoders per slice-length class 0..10 and >10: panic-freedom, the exact Ok/Err "
                        "length classes and Ok(0) for the empty slice are decided for all slices.  Not decided: that the returned number is "
